@@ -30,6 +30,9 @@ type orgbFaults struct {
 	FrameDelayUs int  `json:"frame_delay_us"` // consuming one UpdateLEDs packet takes this long
 	DropAfter    int  `json:"drop_after"`     // close the connection after this many frames (0 = never)
 	NoSysfs      bool `json:"no_sysfs"`       // the hidraw entry of the target is missing in sysfs
+	// DropAfterReqs: the server hangs up on receiving its k-th count / controller request (the client is then in the
+	// middle of its controller search and reads EOF)
+	DropAfterReqs int `json:"drop_after_reqs,omitempty"`
 }
 
 type orgbFrame struct {
@@ -42,6 +45,7 @@ type orgbServer struct {
 	Controllers []orgbController
 	Faults      orgbFaults
 	dials       int
+	reqs        int
 	conns       []net.Conn
 	Frames      map[int][]orgbFrame // per controller index
 	frameCount  map[int]int
@@ -147,6 +151,16 @@ func (s *orgbServer) serve(conn net.Conn) {
 			}
 		}
 		simrt.Yield("orgb.got")
+		if cmd == 0 || cmd == 1 {
+			s.mu.Lock()
+			s.reqs++
+			nreq := s.reqs
+			s.mu.Unlock()
+			if s.Faults.DropAfterReqs > 0 && nreq == s.Faults.DropAfterReqs {
+				s.fired("orgb_hangup_during_controller_search")
+				return
+			}
+		}
 		switch cmd {
 		case 50: // set client name
 		case 0: // controller count
